@@ -91,6 +91,11 @@ def dispatchC08 : List Str → Option (List Str)
     else if cmd == "c08.lines".toList then
       -- completed logical lines of a unit body -> the statements the reader delivers
       some ("ok".toList :: unitStatements args)
+    else if cmd == "c08.phys".toList then
+      -- physical lines of a unit body (comments, `&` continuations, `;`) -> the statements
+      some (match readAll Marks.default args with
+        | .ok items => "ok".toList :: items.filter (fun s => s.head? != some '!')
+        | .error _ => ["err".toList])
     else if cmd == "c08.gate".toList then
       -- c08.gate <blocklevel> <masked line> : branch taken
       match args with
